@@ -56,8 +56,9 @@ def _restore_wrap(self, app, *args, **kwargs):
     return rc
 
 
-def _put_wrap(self, app):
-    rc = _orig_put(self, app)
+def _put_wrap(self, app, *args, **kwargs):
+    # signature-agnostic: only the instance and the result are observed
+    rc = _orig_put(self, app, *args, **kwargs)
     if rc:
         f = sys._getframe(1)
         names = []
